@@ -10,4 +10,4 @@ Extraction "model.ml" Route.respond1 Route.serve Route.empty_caches Route.lookup
   Model.gstep Model.grun Model.frame Model.app_step Model.build_full_sync Model.independent
   Observe.peer_of Observe.init_global Observe.entities Observe.comps_of Observe.parent_of Observe.marked
   Observe.lookup_ent Observe.u2e_list Observe.e2u_list Observe.inbox_of Observe.inbox_all Observe.pending_cmds
-  Observe.find_by_uuid Observe.count_by_uuid.
+  Observe.find_by_uuid Observe.count_by_uuid Observe.assets_list Observe.cache_list Observe.cache_lookup Types.T_SKIN.
